@@ -72,6 +72,56 @@ func runC12(c *Ctx) {
 			}
 		}
 	}
+	// (a') the same for a File whose path no longer names it: after Open the file is renamed away and another, shorter file is
+	// put in its place (for the local twin as well). An os.File follows the open file; so must the remote File, with either
+	// setting of UseFstat: end-relative positions are relative to the end of the OPEN file
+	for _, useFstat := range []bool{false, true} {
+		nameR, nameL := filepath.Join(dir, fmt.Sprintf("mvR%v", useFstat)), filepath.Join(dir, fmt.Sprintf("mvL%v", useFstat))
+		os.WriteFile(nameR, patternBytes(0, 20), 0o644)
+		os.WriteFile(nameL, patternBytes(0, 20), 0o644)
+		p2, err := newPair(pairOpt{clientOpts: []sftp.ClientOption{sftp.UseFstat(useFstat)}})
+		if err != nil {
+			c.Diag("pair: %v", err)
+			break
+		}
+		f2, err := p2.Client.OpenFile(nameR, os.O_RDWR)
+		lf2, err2 := os.OpenFile(nameL, os.O_RDWR, 0)
+		if err != nil || err2 != nil {
+			c.Diag("open: %v %v", err, err2)
+			p2.Close()
+			break
+		}
+		for _, nm := range []string{nameR, nameL} {
+			os.Rename(nm, nm+".moved")
+			os.WriteFile(nm, patternBytes(9, 7), 0o644)
+		}
+		for _, cur := range []int64{0, 19, 21} {
+			for _, d := range []int64{-21, -20, -10, -1, 0, 1, 5000} {
+				f2.Seek(cur, io.SeekStart)
+				lf2.Seek(cur, io.SeekStart)
+				got, err := f2.Seek(d, io.SeekEnd)
+				now, _ := f2.Seek(0, io.SeekCurrent)
+				neg, mag := d < 0, d
+				if neg {
+					mag = -d
+				}
+				n := c.Case("seek", kvx("cur", uint64(cur)), kvx("size", 20), kvi("whence", 2), kvb("neg", neg), kvx("delta", uint64(mag)), kvb("moved", true), kvb("usefstat", useFstat))
+				c.NT(n)
+				c.Obs(n, kvx("off", uint64(now)), kvb("fail", err != nil))
+				want, werr := lf2.Seek(d, io.SeekEnd)
+				wnow, _ := lf2.Seek(0, io.SeekCurrent)
+				ok, why := true, ""
+				if (err != nil) != (werr != nil) || now != wnow || (err == nil && got != want) {
+					ok, why = false, fmt.Sprintf("seek-follows-path: after the open file was renamed away, Seek(%d,SeekEnd) from %d: File -> (%d,%v) now %d; os.File -> (%d,%v) now %d", d, cur, got, err, now, want, werr, wnow)
+				}
+				c.Oracle(n, ok, why)
+				c.Stat("seek_end_on_a_renamed_file")
+			}
+		}
+		f2.Close()
+		lf2.Close()
+		p2.Close()
+	}
 	f.Close()
 	lf.Close()
 	p.Close()
@@ -407,7 +457,9 @@ func c12CloseRace(c *Ctx, i int) {
 	cl.Close()
 	peer.mu.Lock()
 	closes, afterClose := peer.closes, peer.afterClose
+	arrivals := string(peer.arrivals)
 	peer.mu.Unlock()
+	c12CloseWire(c, "closerace", i, arrivals)
 	n := c.Case("closerace", kvi("i", i), kvi("g", g), kvb("perm", peer.permute))
 	c.NT(n)
 	ok, why := true, ""
@@ -498,7 +550,9 @@ func c12CloseHammer(c *Ctx, i int) {
 	}
 	peer.mu.Lock()
 	closes, afterClose := peer.closes, peer.afterClose
+	arrivals := string(peer.arrivals)
 	peer.mu.Unlock()
+	c12CloseWire(c, "closehammer", i, arrivals)
 	n := c.Case("closehammer", kvi("i", i), kvs("method", []string{"truncate", "stat", "readat", "writeat"}[kind]), kvi("g", g))
 	c.NT(n)
 	ok, why := true, ""
@@ -582,4 +636,19 @@ func c12CloseFails(c *Ctx, i int) {
 	}
 	c.Oracle(n, ok, why)
 	c.Stat("closefails")
+}
+
+// c12CloseWire (kind closewire): the requests the peer saw, in arrival order - 'r' a request carrying the handle, 'c' a CLOSE -
+// read by the extracted wire_scan of coq/Xfer/FileLock.v (at most one CLOSE, nothing after it)
+func c12CloseWire(c *Ctx, from string, i int, arrivals string) {
+	if arrivals == "" {
+		arrivals = "-"
+	}
+	n := c.Case("closewire", kvs("from", from), kvi("i", i), kvs("wire", arrivals))
+	c.Obs(n, "scan=ok")
+	c.Oracle(n, true, "")
+	if strings.Contains(arrivals, "c") && strings.Contains(arrivals, "r") {
+		c.NT(n)
+	}
+	c.Stat("closewire_cases")
 }
